@@ -25,3 +25,16 @@ Definition DEFAULT_OMEGA_L_R : R := (7 / 10)%R.
 Definition DEFAULT_OMEGA_L_F : float := (0x1.6666666666666p-1)%float.
 Definition H_SCALE_R : R := (100)%R.
 Definition H_SCALE_F : float := (0x1.9000000000000p+6)%float.
+(* Cosmo.extract_parms, translated statement by statement (omega_k : option num, None = python None) *)
+Section GenExtract.
+  Context {num : Type}.
+  Variables (zero one : num) (sub : num -> num -> num) (is_zero : num -> bool).
+  Definition extract_parms_src (om ol : num) (ok : option num) (flat : bool) : bool * num * num * option num :=
+    (let '(flat, om, ol, ok) := (if (match ok with Some _ => true | None => false end) then (let '(flat, om, ol, ok) := (if (match ok with Some k => is_zero k | None => false end) then (let '(flat, om, ol, ok) := (true, om, ol, ok) in (flat, om, ol, ok)) else (let '(flat, om, ol, ok) := (false, om, ol, ok) in (flat, om, ol, ok))) in (flat, om, ol, ok)) else ((flat, om, ol, ok))) in let '(flat, om, ol, ok) := (if (match ok with Some _ => false | None => true end) then (let '(flat, om, ol, ok) := (true, om, ol, ok) in let '(flat, om, ol, ok) := (flat, om, ol, Some zero) in (flat, om, ol, ok)) else (let '(flat, om, ol, ok) := (if flat then (let '(flat, om, ol, ok) := (flat, om, ol, Some zero) in (flat, om, ol, ok)) else ((flat, om, ol, ok))) in (flat, om, ol, ok))) in let '(flat, om, ol, ok) := (if flat then (let '(flat, om, ol, ok) := (flat, om, (sub one om), ok) in (flat, om, ol, ok)) else ((flat, om, ol, ok))) in (flat, om, ol, ok)).
+End GenExtract.
+(* Cosmo.copy / __copy__ / __deepcopy__ and _pars / __reduce__: constructor arguments (H0, h, flat, omega_m,
+   omega_l, omega_k) of the new instance, in terms of the remembered inputs / the accessor values *)
+Definition copy_args_src {num : Type} (sH0 : num) (sflat : bool) (som sol : num) (sok : option num)
+  : num * option num * bool * num * num * option num := (sH0, None, sflat, som, sol, sok).
+Definition reduce_args_src {num : Type} (rH0 : num) (rflat : bool) (rom rol rok : num)
+  : num * option num * bool * num * num * option num := (rH0, None, rflat, rom, rol, Some rok).
